@@ -315,6 +315,11 @@ func (s *Sched) chooseC(n int, runEnabled, data bool, firstCostly int) int {
 	if c >= firstCostly {
 		s.preempt++
 	}
+	if data && s.cur != nil {
+		// an environment answer (pool hit or miss, which ready select case, which rendezvous
+		// partner) is part of the history: prefixes that differ in it are different states
+		s.cur.hash = mix(s.cur.hash, uint64(c)+0xd47a)
+	}
 	return c
 }
 
